@@ -7,7 +7,7 @@
      parrec <mm> <shape> <nrec> <ind> <w> <ix>
      ecat <mm> <shape3> <nfr> <w> <fmap> <gap> <ix>      (record j at element offset j*(M+gap))
      ecatfull <mm> <shape3> <nfr> <w> <fmap> <gap>
-     minc <shape> <nscales> <swap0d> <ix>      mincfull <shape> <nscales>
+     minc <shape> <nscales> <ix>      mincfull <shape> <nscales>
      reshape <shape> <newshape>
    Result: ok <shape> <elem indices> <factor indices> | err <enum> *)
 let optz s = if s = "_" then None else Some (z_of_string s)
@@ -65,18 +65,11 @@ let handle op args = match op, args with
     (match op, rest with
      | "ecat", [ix] -> out (ecat_getitem (file_reader file) scale dF dR (bool_of_string mm) shape3 nfr w fmap foffs facs (parse_ix ix))
      | _ -> out (ecat_full (file_reader file) scale dF (bool_of_string mm) shape3 nfr w fmap foffs facs))
-  | "minc", [shape; nscales; swap; ix] ->
+  | "minc", [shape; nscales; ix] ->
     let shape = zlist_of_string shape and ns = z_of_string nscales in
     let elems = List.map (enc_be (nat_of_int 4)) (zseq (shape_size shape)) in
     let facs = zrange (shape_size (take_n (int_of_z ns) shape)) in
-    let pix = parse_ix ix in
-    let sw = bool_of_string swap && not (List.exists (fun i -> i = IEll) pix) in
-    (match minc_getitem scale dF (bool_of_string swap) shape ns elems facs pix with
-     | Ok ([], [(v, f)]) when sw ->
-       (* the element reached the output with its bytes reversed: report its index and say so *)
-       let i = dec_be (List.rev (enc_be (nat_of_int 4) v)) in
-       "ok [] [" ^ string_of_z i ^ "] [" ^ string_of_z f ^ "] swapped"
-     | r -> out r)
+    out (minc_getitem scale dF shape ns elems facs (parse_ix ix))
   | "mincfull", [shape; nscales] ->
     let shape = zlist_of_string shape and ns = z_of_string nscales in
     let elems = List.map (enc_be (nat_of_int 4)) (zseq (shape_size shape)) in
